@@ -36,6 +36,7 @@ class PROP(Prop):
                f"{XSPEC}:XSpec.__eq__", f"{XSPEC}:XSpec.__ne__",
                f"{MULTI}:Group.__getitem__#id", f"{MULTI}:Group.__getitem__#index", f"{MULTI}:Group.__contains__", f"{MULTI}:Group.__len__",
                f"{MULTI}:Group.allocate_id", f"{MULTI}:Group._register"]
+    heavy = {f"{XSPEC}:XSpec.__init__": 8, f"{MULTI}:Group._register": 2, f"{MULTI}:Group.allocate_id": 2}
     assumptions = [
         "str.split('//') yields pieces without '//' whose non-final pieces do not end with '/' (leftmost splitting); that split inverts '//'.join(items) exactly when no item contains '//' and no non-final item ends with '/' is a lemma about a builtin, cross-checked by exhaustive enumeration (bounded)",
         "universally quantified invariants are carried for arbitrary fixed indices (free constants J1, J2, G1, G2, Jg): sound by induction per index tuple",
